@@ -128,7 +128,11 @@ class PandasData(BaseIOSpec):
     def _on_update(self, sheet):
         self._sheet = sheet
         if "sheet_name" in self._read_args:
-            self._read_args["sheet_name"] = sheet
+            if sheet is None:
+                # read_excel returns a dict for sheet_name=None
+                del self._read_args["sheet_name"]
+            else:
+                self._read_args["sheet_name"] = sheet
 
     def _init_spec(self):
         """Initialize name and _read_args"""
